@@ -255,7 +255,15 @@ def judgeSt (spec : String) (c o : String) : String :=
         match (if timed then some [] else stages) with
         | none => "bad-case"
         | some sts =>
-          match judgeStage sts srcVals (unordered sts) obs with
+          -- unordered ParallelMap with a failing value: every non-failing consumed element's result may appear
+          let pool : Option (List Val) := match sts with
+            | [.pmap _ k (some bad) _] =>
+              let handled := obs.filter (fun o => !o.dead)
+              some ((handled.filterMap fun o => match o.ev with
+                | .down (.elem (.int x)) => if x = bad then none else some (Val.int (x + k))
+                | _ => none))
+            | _ => none
+          match judgeStage sts srcVals (unordered sts) obs pool with
           | none => "ok"
           | some why => "bad " ++ why
   | _ => "bad-case"
